@@ -11,12 +11,14 @@ projections {"idx": local}), StorageDead is {"s": "dead", "l": local}, block ref
 to / unwind / else / resume / drop / imag and the [value, block] pairs of "targets".
 """
 import copy
+import json
 
 # functions that are analysed in place by a rule (anchors) and must not disappear into their callers
 DENY = {
     "zvt::feig::sequences::convert_dir",      # C11-a/b: the id table is read from this body
 }
 MAX_BLOCKS = 160
+CONVERSION_TRAITS = ("core::convert::From",)
 MAX_ASYNC_BLOCKS = 700
 MAX_DEPTH = 3
 # private async functions that exist on the pinned tree: the client rules analyse them in place, by name
@@ -79,11 +81,16 @@ def _callee_name(t):
 def eligible(raw, by_id):
     if raw is None or raw["defkind"] not in ("Fn", "AssocFn"):
         return False
-    if raw.get("impl_trait") or raw.get("in_trait"):
+    if raw.get("in_trait"):
         return False
+    if raw.get("impl_trait"):
+        # trait impls are analysed in place (codecs, parsers, sequences) - except plain value conversions of
+        # the workspace's own types: `impl From<Reply> for Summary` is a helper function by another name
+        if raw.get("impl_trait") not in CONVERSION_TRAITS:
+            return False
     if raw["id"] in DENY or "mock_inner" in raw["id"] or "::test" in raw["id"]:
         return False
-    if raw.get("vis", "Public") == "Public":
+    if raw.get("vis", "Public") == "Public" and raw.get("impl_trait") not in CONVERSION_TRAITS:
         return False
     if raw.get("coroutine_kind"):
         return False
@@ -110,6 +117,11 @@ def inline_crate(bodies):
     for b in bodies:
         if eligible(b, by_id):
             original(b["id"])
+    from_impls = {}
+    for b in bodies:
+        if b.get("impl_trait") == "core::convert::From" and b["id"] in pristine and b.get("name") == "from" and \
+                not (b.get("generics") or []) and len(b.get("impl_trait_args") or []) > 1:
+            from_impls[(json.dumps(b.get("impl_self"), sort_keys=True), json.dumps(b["impl_trait_args"][1], sort_keys=True))] = b["id"]
     for caller in bodies:
         if "mock_inner" in caller["id"]:
             continue
@@ -121,10 +133,16 @@ def inline_crate(bodies):
             if t["t"] != "call" or t.get("to") is None:
                 continue
             cn = _callee_name(t)
+            targs = (t.get("f") or {}).get("a") or []
+            if (t.get("f") or {}).get("n") == "core::convert::Into::into" and len(targs) == 2:
+                # `x.into()` is `U::from(x)`: the blanket impl only forwards
+                cn = from_impls.get((json.dumps(targs[1], sort_keys=True), json.dumps(targs[0], sort_keys=True)))
+                targs = []
+            elif cn in pristine and pristine[cn].get("impl_trait") in CONVERSION_TRAITS:
+                targs = []          # generic arguments of the trait call are those of the impl header, not of the method
             if cn is None or cn not in pristine or cn in stack or depth >= MAX_DEPTH:
                 continue
             h = pristine[cn]
-            targs = (t.get("f") or {}).get("a") or []
             tmap = None
             if targs:
                 # generic helper: instantiate its type parameters positionally (driver emits the names in
